@@ -10,7 +10,7 @@ AREA = "c08"
 LEAN_PROPS = "Litep2pVerif.Props.C08"
 THEOREMS = ["alternation", "closed_iff_last", "substream_refers_connected", "open_answered_at_most_once",
             "open_answered_once_unless_closed", "ids_fresh", "outbound_open_answered_by_loop",
-            "force_close_keeps_context"]
+            "force_close_keeps_context", "substream_reported_before_close"]
 CONSTS = ["PROTOCOL_COMMAND_CHANNEL_SIZE", "YAMUX_MAX_ACK_BACKLOG"]
 _YAMUX = (sorted(glob.glob(os.path.expanduser("~/.cargo/registry/src/*/yamux-0.13.10/src/lib.rs")))
           or sorted(glob.glob(os.path.expanduser("~/.cargo/registry/src/*/yamux-0.13*/src/lib.rs"))) or ["yamux/src/lib.rs"])[0]
@@ -44,7 +44,15 @@ MANIFEST = {
             "yamux ACK backlog (256) and beyond the command channel (256, ChannelClogged) against a remote that never "
             "acknowledges, small substream_open_timeout, then a wait past it; remotes knowing only a fallback name; judged by "
             "the property-level oracle tcploop.oracle_c08 (every answer carries the id of a request of THAT protocol, at most "
-            "once; every request is answered once the timeout has passed while the connection is open).",
+            "once; every request is answered once the timeout has passed while the connection is open). "
+            "substream_reported_before_close (f-round, seeded C08-f1): report_substream_open delivers by a send that SUSPENDS "
+            "the loop — when a negotiation ends for a live protocol nothing has been reported closed; with room the event is "
+            "enqueued at once, with a full channel the loop waits in exactly that send and, for every schedule of everything "
+            "else, the FIRST change of the loop is that enqueue (or the protocol's own shutdown): no event of the connection is "
+            "processed meanwhile, so every close report comes after the substream event in the protocol's FIFO channel. Tie: "
+            "tcploop family `order` (channel capacity 1/2 filled, inbound/outbound substreams finishing negotiation while "
+            "full — in the same poll as the cause of the exit or before —, every exit path, then drain) under the oracle "
+            "rules ORDER (no substream event after the protocol's close report) and NOT LOST.",
     "note": "Trusted: Lean kernel; axioms propext/Classical.choice/Quot.sound; the hand-written model and its tie; the "
             "environment assumptions of Order.lean (manager cap and report order are C06/C07; tokio mpsc FIFO); keep-alive "
             "(Active/Inactive handles) enters the C08 model only as the arbitrary outcome of try_get_permit (C09 covers it).",
@@ -54,7 +62,9 @@ MANIFEST = {
 }
 RULE = ("tcploop (extra area): fixed, burst (257-300 open requests in chunks or beyond the command channel, remote=stall, "
         "sot=300/500 ms, sleep timeout+500 ms, then inbound substream / new request / close / idle), small stalls, fallback-name, "
-        "hold, accept, half-close, race, span and random families of checks/tcploop.py with focus C08; c08: "
+        "hold, accept, half-close, race, span, order (substream negotiated against a full channel of capacity 1/2, then "
+        "remote close / go-away / ForceClose / idle / error exit in the same poll or a later one, then drain) and random "
+        "families of checks/tcploop.py with focus C08; c08: "
         "seeded histories over 2 peers x up to 3 connections each: a feasible stream (environment simulated: <=2 live "
         "connections, closes of live connections in either order, opens, command receipt, answers by success/failure, "
         "dropped tasks, clogged channels of capacity 1-3, foreign id allocations, force_close followed by the closes of the "
@@ -77,12 +87,18 @@ TRUSTED_BASE = ["Lean 4.33 kernel", "axioms: propext, Classical.choice, Quot.sou
                 "checks/tcploop.py): real time passes only in `sleep`; the oracle's timeout rule needs the adapter's wall clock to "
                 "advance by the requested amount; on a connection built with sot= the driver takes WHICH outbound requests timed "
                 "out during an operation from the implementation's observation (it cannot know the clock) and checks everything else",
+                "tcploop order rule: the adapter's runtime polls a task spawned by the code under test only between two polls "
+                "of the connection task (yield points of the adapter), as tokio's current-thread scheduler does; a hand-over of a "
+                "report to a spawned task is seen as a re-ordering when the close report is produced in the same poll, otherwise as "
+                "a model mismatch (the loop goes on although the model says it waits)",
                 "yamux (crate yamux 0.13.10 + litep2p's Control wrapper) is not modelled beyond: open_stream() may never return"]
 ASSUMPTIONS = ["the keep-alive timeout of the adapter (1 h) does not expire during a case, so handles stay Active "
                "(force_close / open_substream on Inactive handles: C09 area, tcploop and node areas)",
                "tcploop timeout rule: a request that was accepted before a `sleep` of at least substream_open_timeout + 400 ms "
                "is taken by the connection task at the start of that operation at the latest (nobody paused, no channel filled)",
-               "cooperative scheduling budget of tokio does not hide queued events (the adapter polls until Pending twice)"]
+               "cooperative scheduling budget of tokio does not hide queued events (the adapter polls until Pending twice)",
+               "tcploop NOT-LOST rule: judged only for inbound substreams whose negotiation ended (a `run` left the loop "
+               "running) before any operation that can end the connection, with nobody but the receiver busy"]
 KEEP_PREFIX = 1
 PEERS = [1, 2]
 
